@@ -229,12 +229,12 @@ def pair_assoc(filter_name, X, f, g):
     return 0.0 if v != v else abs(v)
 
 
-def validate_block(X, y, feats, got, measure_name, filter_name, n_best, tc, selector_kind, counters, strength=None):
+def validate_block(X, y, feats, got, measure_name, filter_name, n_best, tc, selector_kind, counters, strength=None, th_nan=0.999, th_mode=0.999):
     """Clauses 1-6 for one feature type. strength: association strength used for ordering (defaults to the measure)."""
     probs = []
     meas = {}
     for f in feats:
-        if not defined_basic(X[f]):
+        if not defined_basic(X[f], th_nan, th_mode):
             meas[f] = float("nan")
         else:
             meas[f] = target_measure(measure_name, X[f], y, selector_kind)
@@ -286,6 +286,11 @@ def run_case(tier, seed, i):
     n_best = int(rng.integers(1, max(2, max(len(quant), len(qual)) + 1)))
     tc = float(gen.pick(rng, [0.3, 0.6, 0.9, 1.0]))
     kw = {"thresh_corr": tc}
+    th_nan, th_mode = 0.999, 0.999
+    if rng.random() < 0.4:  # user-supplied thresholds on the share of missing values / of the mode
+        th_nan = gen.pick(rng, [0.5, 0.25, 0.999])
+        th_mode = gen.pick(rng, [0.9, 0.6, 0.999])
+        kw.update({"thresh_nan": th_nan, "thresh_mode": th_mode})
     names = {"float": ("kruskal_measure" if selector_kind == "classification" else "distance_measure", "spearman_filter"),
              "str": ("tschuprowt_measure" if selector_kind == "classification" else "kruskal_measure", "tschuprowt_filter")}
     custom = rng.random() < 0.4
@@ -307,7 +312,7 @@ def run_case(tier, seed, i):
     counters = {"selections": 0, "blocks_validated": 0, "features_left_out_checked": 0, "library_values_compared": 0, "correlated_pairs_seen": 0}
     tags = [selector_kind, target_kind, "custom" if custom else "default"]
     sample = {"selector": selector_kind, "target": target_kind, "n": len(X), "n_best": n_best, "thresh_corr": tc, "column_kinds": kinds,
-              "measures": {k: v[0] for k, v in names.items()}, "filters": {k: v[1] for k, v in names.items()}}
+              "measures": {k: v[0] for k, v in names.items()}, "filters": {k: v[1] for k, v in names.items()}, "thresh_nan": th_nan, "thresh_mode": th_mode}
     cls = ClassificationSelector if selector_kind == "classification" else RegressionSelector
     fx, fy = common.frame_fingerprint(X), common.frame_fingerprint(y)
     with contextlib.redirect_stdout(io.StringIO()):
@@ -335,7 +340,7 @@ def run_case(tier, seed, i):
         mname, fname = names[dtype]
         # correlation distance 1-r: the association with the target it stands for is |r|
         strength = (lambda m: abs(1 - m)) if mname == "distance_measure" else None
-        probs, meas = validate_block(X, y, feats, g, mname, fname, n_best, tc, selector_kind, counters, strength)
+        probs, meas = validate_block(X, y, feats, g, mname, fname, n_best, tc, selector_kind, counters, strength, th_nan, th_mode)
         counters["blocks_validated"] += 1
         defined = [f for f in feats if meas[f] == meas[f]]
         if len(defined) >= 3 and len(g) < len(defined):
